@@ -7,7 +7,7 @@ document within one rewrite; plus the 6^3 chain schemas (every nullability/list 
 import itertools
 
 from vf import doc, explore, harness, seeds, schema as S
-from vf.data import Scenario, build_root
+from vf.data import Scenario, build_root, lookup
 from vf.model import coerce as C, execute as X
 
 PROPERTY = "C02"
@@ -32,7 +32,7 @@ class Bad:
         return "Bad()"
 
 
-def kinds_for(schema, fdef):
+def kinds_for(schema, fdef, natural=None):
     """applicable failure kinds for a field of this declared type -> list of (kind label, fault, value)"""
     out = [("raise", "raise", None), ("raise_te", "raise_te", None), ("return_exc", "return_exc", None),
            ("null", "none", None)]
@@ -41,6 +41,26 @@ def kinds_for(schema, fdef):
     if core[0] == "list":
         out.append(("nonlist", "value", 42))
         out.append(("nonlist-dict", "value", {"k": 1}))
+        # failures of single *items* (the error path must carry the index)
+        item_t = core[1]
+        item_core = item_t[1] if item_t[0] == "nn" else item_t
+        base = list(natural) if isinstance(natural, list) else []
+        bads = [("item-exception", Exception("item failure")), ("item-null", None)]
+        if item_core[0] == "named":
+            itd = schema.type(item_core[1])
+            if itd.kind in ("SCALAR", "ENUM"):
+                bads.append(("item-unserialisable", Bad()))
+            elif itd.kind in ("INTERFACE", "UNION"):
+                bads.append(("item-unknown-type", {"_typename": "Nope", "id": "x"}))
+                foreign = [o.name for o in schema.types if o.kind == "OBJECT" and o.name not in schema.possible_types(itd.name)
+                           and o.name not in (schema.query, schema.mutation, schema.subscription)]
+                if foreign:
+                    bads.append(("item-foreign-type", {"_typename": foreign[0], "id": "x"}))
+        else:
+            bads.append(("item-nonlist", 7))
+        for label, bad in bads:
+            out.append((label + "-last", "value", base + [bad]))
+            out.append((label + "-first", "value", [bad] + base))
     else:
         td = schema.type(core[1])
         if td.kind in ("SCALAR", "ENUM"):
@@ -59,17 +79,22 @@ def field_def_at(schema, located, op, path, calls_types):
     return calls_types.get(path)
 
 
+NATURAL = {}
+
+
 def reach_points(schema, located, op_name, variables, root):
     """fault points of the fault-free run: path -> FieldDef (via a tracing executor)"""
     scn = Scenario(root=root)
     ex = X.Executor(schema, located, scn)
     points = {}
     orig = ex.field
+    NATURAL.clear()
 
     def traced(obj_type, source, nodes, path):
         name = nodes[0].name
         if not name.startswith("__"):
             points.setdefault(path, schema.field_def(obj_type, name))
+            NATURAL.setdefault(path, lookup(source, name))
         return orig(obj_type, source, nodes, path)
 
     ex.field = traced
@@ -166,7 +191,7 @@ def enumerate_faults(schema, engine, located, text, op_name, variables, root, ou
     for p, fd in points.items():
         if fd is None:
             continue
-        for label, fault, value in kinds_for(schema, fd):
+        for label, fault, value in kinds_for(schema, fd, NATURAL.get(p)):
             singles.append((p, label, fault, value))
             out["tables"]["kinds"][label] = out["tables"]["kinds"].get(label, 0) + 1
     out["counts"]["fault_points"] += len(points)
@@ -178,7 +203,8 @@ def enumerate_faults(schema, engine, located, text, op_name, variables, root, ou
         out["counts"]["singles"] += 1
         out["sets"]["cases"].add(explore.h64("%s|%s|%s|%r|%r|%s" % (replay_base.get("w"), text, op_name, variables, s[0], s[1])))
     if pairs:
-        core = [s for s in singles if s[1] in ("raise", "null", "raise_te", "unserialisable", "nonlist", "unknown-type")]
+        core = [s for s in singles if s[1] in ("raise", "null", "raise_te", "unserialisable", "nonlist", "unknown-type", "item-unknown-type-last",
+                                              "item-null-first", "item-exception-last")]
         for a, b in itertools.combinations(core, 2):
             if a[0] == b[0]:
                 continue
@@ -329,7 +355,7 @@ def replay(rec):
         if fd is None:
             # fault point only reachable in the faulty run's absence; look the definition up structurally
             continue
-        for l, f, v in kinds_for(schema, fd):
+        for l, f, v in kinds_for(schema, fd, NATURAL.get(p)):
             if l == label:
                 fs.append((p, l, f, v))
     run_fault_case(schema, engine, located, r["text"], r["op"], r["variables"], root, fs, out, "replay", {"kind": r["kind"], "w": r.get("w")})
